@@ -284,6 +284,19 @@ class BufferRun:
                 self.V("len", f"len={outs[0]} but min(n,N) summed over tasks = {self.expected_len()} (N={self.N}, adds per task={[len(t.order) for t in self.tasks]})")
         if len(outs) == 2 and outs[0] != outs[1] and "twin" in self.cl:
             self.res.violate("C19.a", self.site, f"len differs after reload: {outs}")
+        if len(self.sims) == 2 and "twin" in self.cl and self.family == "sub":
+            # further public observables of the sub-trajectory buffers
+            for attr in ("environment_terminates",):
+                va = [getattr(sm.buf, attr, None) for sm in self.sims]
+                if va[0] != va[1]:
+                    self.res.violate("C19.a", self.site, f"{attr} differs after reload: original {va[0]}, reloaded {va[1]}")
+            if outs[0] > 0:
+                try:
+                    rs = [float(sm.buf.reward_scale()) for sm in self.sims]
+                    if rs[0] != rs[1]:
+                        self.res.violate("C19.a", self.site, f"reward_scale() differs after reload: {rs}")
+                except Exception:
+                    pass
         self.res.log.add("len", outs[0])
 
     def active_tasks(self):
